@@ -627,11 +627,12 @@ class ObjTranslator:
     """
 
     def __init__(self, fn, *, src_file, lean_name, kind, siblings, externals=(), ignored_calls=(), params=None,
-                 has_self=True, stop_before=None, result_locals=None, doc="", method_externals=()):
+                 has_self=True, stop_before=None, result_locals=None, doc="", method_externals=(), consts=None):
         self.fn, self.src_file, self.lean_name, self.kind = fn, src_file, lean_name, kind
         self.siblings: dict[str, Sibling] = siblings
         self.externals, self.ignored_calls = set(externals), set(ignored_calls)
         self.method_externals = set(method_externals)
+        self.consts = dict(consts or {})
         self.has_self = has_self
         self.params = params
         self.stop_before = stop_before          # predicate on a statement: translation ends before it
@@ -685,6 +686,9 @@ class ObjTranslator:
                 if e.id in self.handler_vars:
                     self.fail(e, "exception variable used as a value")
                 return lname(e.id), True
+            if e.id in self.consts:
+                # a module-level integer constant, inlined with the value it has in the source now
+                return f"(OVal.int ({self.consts[e.id]}))", True
             self.fail(e, f"unknown name {e.id}")
         if isinstance(e, ast.Constant):
             v = e.value
@@ -1187,7 +1191,7 @@ def gen_group(repo: Path, notes: list, *, src_file: str, cls_name: str | None, f
                                externals=externals, ignored_calls=ignored_calls, params=spec.get("params"),
                                has_self=has_self, stop_before=spec.get("stop_before"),
                                result_locals=spec.get("result_locals"), doc=spec.get("doc", ""),
-                               method_externals=spec.get("method_externals", ()))
+                               method_externals=spec.get("method_externals", ()), consts=spec.get("consts"))
             out.append(tr.translate() + "\n")
         except Untranslatable as e:
             notes.append(f"untranslatable {e} ({cls_name or ns}.{py})")
@@ -1405,6 +1409,25 @@ def gen_codec_tables(repo: Path, notes: list) -> str:
     return "\n".join(out)
 
 
+def gen_encode(repo: Path, notes: list, gate_ok: bool) -> str:
+    """Gen/Encode.lean: `js_unsafe` of utils/encode.py (the module constants it compares with are inlined)"""
+    src = "utype/utils/encode.py"
+    consts = {}
+    try:
+        tree = ast.parse((repo / src).read_text())
+        for nm in ("MAX_SAFE_NUMBER", "MIN_SAFE_NUMBER"):
+            v = find_assign(tree, nm)
+            val = ast.literal_eval(v) if v is not None else None
+            if isinstance(val, int) and not isinstance(val, bool):
+                consts[nm] = val
+    except Exception:
+        pass
+    return gen_group(
+        repo, notes, src_file=src, cls_name=None, ns="Encode", title="utype/utils/encode.py (js_unsafe)",
+        funcs=[{"py": "js_unsafe", "find": _find_module_func(repo, src, "js_unsafe"), "has_self": False, "arity": 1,
+                "consts": consts}], gate_ok=gate_ok)
+
+
 def gen_field(repo: Path, notes: list, gate_ok: bool) -> str:
     return gen_group(
         repo, notes, src_file="utype/parser/field.py", cls_name="ParserField", ns="Field",
@@ -1430,6 +1453,7 @@ def main():
     files["Field.lean"] = gen_field(repo, notes, unprov_ok)
     files["Options.lean"] = gen_options(repo, notes, unprov_ok)
     files["Registry.lean"] = gen_registry(repo, notes, unprov_ok)
+    files["Encode.lean"] = gen_encode(repo, notes, unprov_ok)
     files["JsonTables.lean"] = gen_json_tables(repo, notes)
     files["CodecTables.lean"] = gen_codec_tables(repo, notes)
     files["NOTES.txt"] = "\n".join(notes) + ("\n" if notes else "")
